@@ -150,6 +150,39 @@ def program(rng):
     return files
 
 
+# Hand-written program shapes that every run includes (the random generator rarely produces them):
+# loops written on ONE source line with diverging arms (circuit counting), several functions on one line
+# (macro-generated accessors; some never called), single-line switch / short-circuit / nested loops, early return.
+SHAPES = [
+    ({"t.c": """#include <stdlib.h>
+int f(int n) { int a = 0, b = 0;
+  for (int i = 0; i < n; i++) { if (i < 0) a++; else b++; }
+  int j = 0; while (j < n) { if (j >= 0) b++; else a++; j++; }
+  for (int i = 0; i < n; i++) { if (i & 1) a++; else b++; }
+  return a + b; }
+int main(int argc, char **argv) { return f(argc > 1 ? atoi(argv[1]) : 3) & 0; }
+"""}, [["10"], ["5"]]),
+    ({"t.c": """#include <stdlib.h>
+#define GETTER(n) int get_##n(int x) { return x + 1; }
+GETTER(width) GETTER(height) GETTER(depth)
+int one(void) { return 1; } int two(void) { return 2; }
+int two_b(void) { return 2; } int one_b(void) { return 1; }
+int main(int argc, char **argv) { int r = get_width(argc) + get_width(2) + one() + one_b(); if (argc > 5) r += get_depth(1); return r & 0; }
+"""}, [[], ["1"], ["2", "3"]]),
+    ({"t.c": """#include <stdlib.h>
+int g(int x, int y) { int r = 0;
+  for (int i = 0; i < x; i++) { for (int k = 0; k < y; k++) { if (k == 1) continue; r++; } }
+  switch (x & 3) { case 0: r++; break; case 1: r += 2; break; default: r += 3; }
+  if (x > 2 && y > 1 || x == 0) r++;
+  do { r--; if (r < -3) break; } while (r > 0);
+  for (int i = 0; i < 100; i++) { if (i == x) return r; }
+  return r + 1; }
+int unused(int x) { for (int i = 0; i < x; i++) { if (i) x--; else x++; } return x; }
+int main(int argc, char **argv) { return g(argc > 1 ? atoi(argv[1]) : 0, argc > 2 ? atoi(argv[2]) : 2) & 0; }
+"""}, [["3", "4"], ["0"], ["200", "1"]]),
+]
+
+
 def arg_sets(rng, k):
     return [[str(rng.randrange(-3, 20)), str(rng.randrange(-3, 20))][:rng.randrange(0, 3)] for _ in range(k)]
 
